@@ -25,6 +25,10 @@ def main():
     pid, out, wt = sys.argv[1], sys.argv[2], sys.argv[3]
     ns = sys.argv[4:] or sorted({re.search(r"patch(\d+)\.diff", f).group(1) for f in glob.glob(os.path.join(out, "patch*.diff"))})
     tier = os.environ.get("SEED_TIER", "quick")
+    # the scratch worktree must sit on /repo's current HEAD (hooks and fixes included), else the harness cannot build
+    head = subprocess.check_output(["git", "-C", "/repo", "rev-parse", "HEAD"], text=True).strip()
+    reset(wt)
+    sh(["git", "checkout", "-q", "--detach", head], wt)
     for n in ns:
         patch = os.path.join(out, "patch%s.diff" % n)
         meta = json.load(open(os.path.join(out, "meta%s.json" % n))) if os.path.exists(os.path.join(out, "meta%s.json" % n)) else {}
